@@ -485,9 +485,19 @@ def run_check(prop, tier, seed):
         if reported >= 10:
             break
         v = vs[0]
-        run.violation({"kind": "input", "input": v["input"], "impl": v["impl"], "model": v["model"], "spec": v["spec"],
-                       "others_in_group": len(vs) - 1, "seed": seed, "tier": tier,
-                       "broken_obligations": problems})
+        if hasattr(plug, "shrink"):
+            # property-specific minimisation of the failing input (C17: remove operations while the disagreement persists)
+            try:
+                v = plug.shrink(v, run) or v
+            except Exception as ex:  # a failing shrinker must never hide the finding
+                run.say(f"shrink failed ({ex}); reporting the unshrunk input")
+        rec = {"kind": "input", "input": v["input"], "impl": v["impl"], "model": v["model"], "spec": v["spec"],
+               "others_in_group": len(vs) - 1, "seed": seed, "tier": tier,
+               "broken_obligations": problems}
+        if v.get("shrunk_from"):
+            rec["shrunk_from"] = v["shrunk_from"]
+            rec["shrunk_ops"] = v.get("shrunk_ops", "")
+        run.violation(rec)
         reported += 1
     run.cov["disagreements_impl_spec"] = len(spec_viol)
     run.cov["disagreements_impl_model"] = len(corr_broken)
